@@ -283,6 +283,25 @@ def corpus_cases():
     return out
 
 
+def earlier_cfg(rng, cfg):
+    """The configuration an instance was built and used with before being re-parametrised in place to `cfg`: a random
+    one of the same kind, or (60%) one that differs from `cfg` in a FEW parameters only (often a single one: only t,
+    only N, only eta ...), the way a caller re-tunes an instance between two uses."""
+    other = gen_cfg(rng, kind=cfg["kind"])
+    if rng.random() < 0.4:
+        return other
+    cfg0 = dict(cfg, p=dict(cfg["p"]))
+    keys = ["u", "N", "t"] + list(cfg["p"])
+    for key in rng.sample(keys, min(len(keys), rng.choice([1, 1, 1, 2, 3]))):
+        if key in ("u", "N", "t"):
+            cfg0[key] = other[key]
+        elif key in other["p"]:
+            cfg0["p"][key] = other["p"][key]
+    if cfg0["kind"] == "sprt" and cfg0["N"] is not None:
+        cfg0["ro"] = True
+    return cfg0
+
+
 def corr_cases(rng, n, kinds=None, reuse_frac=0.15, maxlen=12):
     """Generate n cases and run the implementation on them.  A fraction re-uses one instance that was
     built and run with another configuration first, then re-parametrised in place."""
@@ -293,7 +312,7 @@ def corr_cases(rng, n, kinds=None, reuse_frac=0.15, maxlen=12):
         xs = gen_xs(rng, cfg, maxlen=maxlen)
         obj, tag = None, "fresh"
         if rng.random() < reuse_frac:
-            cfg0 = gen_cfg(rng, kind=cfg["kind"])
+            cfg0 = earlier_cfg(rng, cfg)
             try:
                 with warnings.catch_warnings():
                     warnings.simplefilter("ignore")
